@@ -648,11 +648,14 @@ def lu_roles(v):
     if isinstance(v, Res) and v.ok:
         v = unref(v.v)
     if isinstance(v, Rec) and v.adt == "LU":
-        return role_map([(v.f.get("a"), "A"), (v.f.get("p"), "P")])
+        fl = LU_FIELDS
+        return role_map([(v.f.get(fl.get("a", "a")), "A"), (v.f.get(fl.get("p", "p")), "P")])
     return {}
 
 
 def run_loops(chk, F):
+    COUNTER_BASE.clear()
+    lu_fields(F)
     fns = {b["path"]: b for b in F.bodies.values() if b["path"].startswith("linalg::")}
 
     def get(suffix):
@@ -709,21 +712,31 @@ def run_loops(chk, F):
                        body_loc(F, body), found="iota" if p_iota else [show_group(k, A(k[2][0][0])) for k in inits][:1], nontrivial=False)
                 # pairing per path: row exchange, permutation exchange and the parity counter move together
                 bad = []
-                for pp in paths:
+                counter0 = []
+                # paths without an exchange first: they fix the counter's base value (n in the pinned source)
+                def _has_x(pp_):
+                    return any(u["arr"] == "A" and len(u["frames"]) == 2 and u["idx"][0] != u["frames"][1][0] for u in pp_["updates"])
+                for pp in sorted(paths, key=_has_x):
                     v = unref(pp["value"])
                     from ..interp import Res
                     if not (isinstance(v, Res) and v.ok):
                         continue
                     lu = unref(v.v)
-                    pc = unref(lu.f.get("p_count"))
-                    inc = isinstance(pc, Sc) and equal(pc.v, Poly.sym("n") + 1)
-                    same = isinstance(pc, Sc) and equal(pc.v, Poly.sym("n"))
+                    pc = unref(lu.f.get(lu_fields(F).get("p_count", "p_count")))
+                    rowx0 = any(u["arr"] == "A" and len(u["frames"]) == 2 and u["idx"][0] != u["frames"][1][0] for u in pp["updates"])
+                    if isinstance(pc, Sc) and not rowx0:
+                        counter0.append(pc.v)
+                    base = counter0[0] if counter0 else Poly.sym("n")
+                    inc = isinstance(pc, Sc) and equal(pc.v, base + 1)
+                    same = isinstance(pc, Sc) and equal(pc.v, base)
                     rowx = any(u["arr"] == "A" and len(u["frames"]) == 2 and u["idx"][0] != u["frames"][1][0] for u in pp["updates"])
                     perx = any(u["arr"] == "P" and len(u["frames"]) == 1 and u["frames"][0][0] == vi for u in pp["updates"])
                     if not ((rowx and perx and inc) or (not rowx and not perx and same)):
                         bad.append("row exchange %s, permutation exchange %s, parity counter %s" % (rowx, perx, pc.v.show() if isinstance(pc, Sc) else pc))
+                if counter0:
+                    COUNTER_BASE["v"] = counter0[0]
                 chk.ob("loops|lu-new|pairing", not bad, "on every path the row exchange, the permutation exchange and the parity counter "
-                       "(+1 per exchange, starting at n) are updated together", body_loc(F, body), found=sorted(set(bad))[:3] or "%d paths consistent" % len(paths))
+                       "(+1 per exchange from its base value) are updated together", body_loc(F, body), found=sorted(set(bad))[:3] or "%d paths consistent" % len(paths))
                 chk.count("loop-body update statements checked", len(wanted))
                 lu_guard(chk, F, body, paths, vi)
         except Unsupported as ex:
@@ -734,7 +747,7 @@ def run_loops(chk, F):
         chk.undecide("loops|lu-solve", "missing anchor")
     else:
         try:
-            ups, ev, paths = updates_of(F, body, lambda: [lu_self(), ArrV("b")], roles=lambda v: role_map([(v, "X")]))
+            ups, ev, paths = updates_of(F, body, lambda: [lu_self(F), ArrV("b")], roles=lambda v: role_map([(v, "X")]))
             groups = composed(paths)
             fw = [k for k in groups if k[0] == "X" and len(k[2]) == 1 and not k[2][0][3] and k[1] == (k[2][0][0],)]
             bw = [k for k in groups if k[0] == "X" and len(k[2]) == 1 and k[2][0][3] and k[1] == (k[2][0][0],)]
@@ -761,7 +774,7 @@ def run_loops(chk, F):
         chk.undecide("loops|lu-inverse", "missing anchor")
     else:
         try:
-            ups, ev, paths = updates_of(F, body, lambda: [lu_self()], roles=lambda v: role_map([(v, "IA")]))
+            ups, ev, paths = updates_of(F, body, lambda: [lu_self(F)], roles=lambda v: role_map([(v, "IA")]))
             if inverse_by_solve(chk, F, body, ups, ev, paths):
                 raise StopIteration
             groups = composed(paths)
@@ -809,10 +822,10 @@ def run_loops(chk, F):
         chk.undecide("loops|lu-determinant", "missing anchor")
     else:
         try:
-            ups, ev, paths = updates_of(F, body, lambda: [lu_self()])
+            ups, ev, paths = updates_of(F, body, lambda: [lu_self(F)])
             from ..interp import fn_n
             det = pi(Poly.const(0), Poly.sym("n"), lambda k: A("self.a", k, k))
-            par = fn_n(DOMK, "rem", A("self.p_count") - Poly.sym("n"), Poly.const(2))
+            par = fn_n(DOMK, "rem", A("self.p_count") - COUNTER_BASE.get("v", Poly.sym("n")), Poly.const(2))
             ok = len(paths) == 2
             found = []
             for pp in paths:
@@ -843,8 +856,39 @@ def run_loops(chk, F):
         jacobi(chk, F, body)
 
 
-def lu_self():
-    return Rec("LU", {"a": ArrV("self.a"), "p": ArrV("self.p"), "p_count": Sc(Poly.var("self.p_count")), "f": PHANTOM})
+COUNTER_BASE = {}   # value of the exchange counter when no rows were exchanged (established by the LU::new rule)
+LU_FIELDS = {}    # role -> actual field name of struct LU, by field TYPE (2-d array, 1-d array, usize counter, marker)
+
+
+def lu_fields(F):
+    """the private fields of LU by their types: the factor matrix (2-d array), the row permutation (1-d array of usize), the exchange
+    counter (usize); names are the repository's business"""
+    if LU_FIELDS.get("_for") is F:
+        return LU_FIELDS
+    LU_FIELDS.clear()
+    LU_FIELDS["_for"] = F
+    adt = F.adts.get("LU")
+    for f in (adt or {}).get("fields", []):
+        ts = F.ty_s(f["t"]) if isinstance(f.get("t"), int) else ""
+        if "Dim<[usize; 2]>" in ts:
+            LU_FIELDS.setdefault("a", f["name"])
+        elif "Dim<[usize; 1]>" in ts:
+            LU_FIELDS.setdefault("p", f["name"])
+        elif ts == "usize":
+            LU_FIELDS.setdefault("p_count", f["name"])
+        elif "PhantomData" in ts:
+            LU_FIELDS.setdefault("f", f["name"])
+    return LU_FIELDS
+
+
+def lu_self(F=None):
+    fl = lu_fields(F) if F is not None else {"a": "a", "p": "p", "p_count": "p_count", "f": "f"}
+    if not all(k in fl for k in ("a", "p", "p_count")):
+        raise Unsupported("struct LU does not have a 2-d array, a 1-d array and a usize counter")
+    r = {fl["a"]: ArrV("self.a"), fl["p"]: ArrV("self.p"), fl["p_count"]: Sc(Poly.var("self.p_count"))}
+    if "f" in fl:
+        r[fl["f"]] = PHANTOM
+    return Rec("LU", r)
 
 
 def jacobi_roles(v):
